@@ -22,12 +22,15 @@
   return `UnsafeError` before doing anything when the node is unsafe, and `C07_log_monotone` says
   that these four places are the only ones where `evalImpl` extends the log.
 
-  Finding (see `C07_taint_laundering`): the clause "no value originating from unsafe content is
-  ever passed to a call" is FALSE for the model (and for the library): a value computed from an
-  !unsafe node can reach a call through two references. What holds is stated in
-  `C07_args_only_safe`, `C07_call_args_untainted`, `C07_taint_sound`.
+  History: an earlier version of the library (and of the model) laundered taint — a value computed
+  from an !unsafe node reached a call through two references (`q: !unsafe 7, p: {x: !xref q},
+  c: !call f {a: !xref p}`), because reading a tainted memo entry in non-strict mode did not count
+  as having seen unsafe content. The library was repaired (reading a tainted entry now bumps the
+  counter `unsafeSeen`), the model follows, and the section "No laundering" proves the closure that
+  was missing: `C07_no_laundering`, `C07_untainted_closed`, `C07_untainted_subtree`.
 -/
 import AY.Lemmas.OnceLemmas
+import AY.Lemmas.TaintLemmas
 import AY.Lemmas.SafeFlagLemmas
 namespace AY
 
@@ -174,16 +177,19 @@ example : evaluate c07ExWorld (.comp {} .dict [(.str "c", c07ExUnsafeCall)]) = .
 /- the log is only extended by `on_evaluate_impl` of a *safe* executing node: if every recursive
    call keeps an invariant `I` and a preorder `R` on states, then `evalImpl` keeps them up to at
    most one new log entry, which is written for the node itself and only if it is a safe
-   `!call` / `!bind` / `!eval` / `!import` node (`DynSafe n what`). -/
+   `!call` / `!bind` / `!eval` / `!import` node (`DynSafe n what`). (Besides the recursive calls the
+   only other state change inside `evalImpl` is `seeTaint`, the counter bump of a non-strict
+   reference that reads a tainted memo entry: `I` and `R` must be compatible with it, hypothesis `hsee`.) -/
 theorem C07_log_monotone {I : EvSt → Prop} {R : EvSt → EvSt → Prop}
     (hrefl : ∀ s, R s s) (htrans : ∀ a b c, R a b → R b c → R a c)
     {rec : Rec} {root : Node} {w : World} {rs : Bool} {n : Node} {path : Path} {st st' : EvSt} {v : Val}
+    (hsee : rs = false → ∀ s, I s → I (seeTaint s) ∧ R s (seeTaint s))
     (hrec : ∀ rs' m p s v s', Calls root rs n path rs' m p → I s → rec rs' m p s = .ok (v, s') → I s' ∧ R s s')
     (hI : I st) (h : evalImpl rec root w rs n path st = .ok (v, st')) :
     ∃ st1, I st1 ∧ R st st1 ∧
       (st' = st1 ∨ ∃ what, DynSafe n what ∧
         st' = { st1 with log := st1.log ++ [{ path := path, what := what }] }) :=
-  evalImpl_lift hrefl htrans hrec hI h
+  evalImpl_lift hrefl htrans hsee hrec hI h
 
 example : ∃ v st', evalImpl (evalNodeF (.leaf {} (.imp "os")) { modules := ["os"] } 3) (.leaf {} (.imp "os"))
     { modules := ["os"] } false (.leaf {} (.imp "os")) [] {} = .ok (v, st') ∧
@@ -411,19 +417,22 @@ example : ∃ v st', ecfgLookup (evalNodeF c07ExSafeTree c07ExWorld 9) c07ExSafe
     st'.tainted = [] := by
   refine ⟨_, _, rfl, ?_⟩; rfl
 
-/- the taint invariant: a (fresh) evaluation during which an unsafe node was visited — the node
-   itself, or any node evaluated on the way, which is what the counter records — memoises its
-   result as tainted -/
+/- the taint invariant: an evaluation during which unsafe content was seen — the node itself is not
+   safe, or the counter moved: an unsafe node was visited or a tainted memo entry was read on the
+   way — has its result memoised as tainted. It holds for a fresh evaluation and (since the repair)
+   for a memo hit on a tainted path, where the counter moves and the path stays tainted. -/
 theorem C07_taint_sound (root : Node) (w : World) (fuel : Nat) (rs : Bool) (n : Node) (path : Path)
-    (st st' : EvSt) (v : Val) (hfresh : plookup path st.cache = none)
+    (st st' : EvSt) (v : Val) (hfresh : plookup path st.cache = none ∨ path ∈ st.tainted)
     (h : evalNodeF root w fuel rs n path st = .ok (v, st'))
     (hu : st'.unsafeSeen ≠ st.unsafeSeen ∨ eSafe n.flags = false) : path ∈ st'.tainted := by
   cases fuel with
   | zero => simp [evalNodeF] at h
   | succ fuel =>
     obtain ⟨_, hcase⟩ := evalNodeF_ok_inv h
-    rcases hcase with ⟨hv, _, _⟩ | ⟨_, _, st2, _, rfl⟩
-    · rw [hfresh] at hv; cases hv
+    rcases hcase with ⟨hv, _, rfl⟩ | ⟨_, _, st2, _, rfl⟩
+    · rcases hfresh with hf | hf
+      · rw [hf] at hv; cases hv
+      · simpa using hf
     · rw [finish_tainted]
       simp only [finish_unsafeSeen] at hu
       cases hs : eSafe n.flags with
@@ -435,7 +444,32 @@ theorem C07_taint_sound (root : Node) (w : World) (fuel : Nat) (rs : Bool) (n : 
         · simp [hu]
         · rw [hs] at hu; cases hu
 
-/- without the freshness hypothesis the statement is false for an arbitrary state: in non-strict
+/- (a) reading a tainted memo entry in non-strict mode strictly increases the counter — through a
+   reference (`ctx.get_node`) and through `evaluate_node` —, in strict mode it is refused
+   (`C07_lookup_refuses_tainted`, `C07_args_only_safe`) -/
+theorem C07_tainted_read_counts (root : Node) (w : World) (fuel : Nat) (n : Node) (p : Path)
+    (st st' : EvSt) (a v : Val) (hc : plookup p st.cache = some a) (ht : p ∈ st.tainted) :
+    ctxGetNode root false p st = .ok (.value a, seeTaint st) ∧
+    (seeTaint st).unsafeSeen = st.unsafeSeen + 1 ∧
+    (evalNodeF root w fuel false n p st = .ok (v, st') → st.unsafeSeen < st'.unsafeSeen ∧ p ∈ st'.tainted) := by
+  refine ⟨by simp [ctxGetNode, hc, ht, seeTaint], rfl, ?_⟩
+  intro h
+  cases fuel with
+  | zero => simp [evalNodeF] at h
+  | succ fuel =>
+    obtain ⟨_, hcase⟩ := evalNodeF_ok_inv h
+    rcases hcase with ⟨_, _, rfl⟩ | ⟨hnone, _⟩
+    · have := le_bump_unsafeSeen n st
+      rw [hit_unsafeSeen, if_pos ht]
+      exact ⟨by omega, by simpa using ht⟩
+    · rw [hc] at hnone; cases hnone
+
+example : ∃ st', evalNodeF c07ExSafeTree c07ExWorld 1 false (.leaf {} (.scalar .null)) [.str "x"]
+    { cache := [([.str "x"], .scalar .null)], tainted := [[.str "x"]] } = .ok (.scalar .null, st') ∧
+    st'.unsafeSeen = 1 := by
+  refine ⟨_, rfl, ?_⟩; rfl
+
+/- for a memo hit on an *untainted* path the statement is false in an arbitrary state: in non-strict
    mode a memo hit on an `!unsafe` node bumps the counter and taints nothing … -/
 example : ∃ st', evalNodeF c07ExSafeTree c07ExWorld 1 false (.leaf { safe := some false } (.scalar .null)) [.str "x"]
     { cache := [([.str "x"], .scalar .null)] } = .ok (.scalar .null, st') ∧
@@ -453,22 +487,24 @@ theorem C07_taint_sound_reachable (root : Node) (w : World) (huk : uniqueKeys ro
   have hcov' := evalNodeF_cov root w huk fuel rs n path st v st' hp hcov h
   refine ⟨hcov', ?_⟩
   cases hc : plookup path st.cache with
-  | none => exact C07_taint_sound root w fuel rs n path st st' v hc h hu
+  | none => exact C07_taint_sound root w fuel rs n path st st' v (.inl hc) h hu
   | some a =>
-    have hs : eSafe n.flags = false := by
-      rcases hu with hu | hu
-      · cases fuel with
-        | zero => simp [evalNodeF] at h
-        | succ fuel =>
-          obtain ⟨_, hcase⟩ := evalNodeF_ok_inv h
-          rcases hcase with ⟨_, _, rfl⟩ | ⟨hnone, _⟩
-          · cases hs : eSafe n.flags with
-            | false => rfl
-            | true => rw [bump_safe hs] at hu; exact absurd rfl hu
-          · rw [hc] at hnone; cases hnone
-      · exact hu
-    have hc' : plookup path st'.cache ≠ none := by rw [evalNodeF_cached h]; simp
-    exact hcov'.utaint path n hc' (hp.getNode_uniq huk).1 hs
+    by_cases ht : path ∈ st.tainted
+    · exact C07_taint_sound root w fuel rs n path st st' v (.inr ht) h hu
+    · have hs : eSafe n.flags = false := by
+        rcases hu with hu | hu
+        · cases fuel with
+          | zero => simp [evalNodeF] at h
+          | succ fuel =>
+            obtain ⟨_, hcase⟩ := evalNodeF_ok_inv h
+            rcases hcase with ⟨_, _, rfl⟩ | ⟨hnone, _⟩
+            · cases hs : eSafe n.flags with
+              | false => rfl
+              | true => rw [hit_untainted ht, bump_safe hs] at hu; exact absurd rfl hu
+            · rw [hc] at hnone; cases hnone
+        · exact hu
+      have hc' : plookup path st'.cache ≠ none := by rw [evalNodeF_cached h]; simp
+      exact hcov'.utaint path n hc' (hp.getNode_uniq huk).1 hs
 
 /-- `{u: !unsafe 7, d: {x: !xref u}}` -/
 def c07ExTaintTree : Node :=
@@ -480,7 +516,8 @@ example : uniqueKeys c07ExTaintTree = true ∧ Placed c07ExTaintTree c07ExTaintT
     Cov c07ExTaintTree {} := ⟨rfl, Placed.root, Cov.init _⟩
 
 example : ∃ v st', evalNodeF c07ExTaintTree {} 9 false c07ExTaintTree [] {} = .ok (v, st') ∧
-    st'.unsafeSeen ≠ ({} : EvSt).unsafeSeen ∧ st'.tainted = [[], [.str "u"]] := by
+    st'.unsafeSeen ≠ ({} : EvSt).unsafeSeen ∧
+    st'.tainted = [[], [.str "d"], [.str "d", .str "x"], [.str "u"]] := by
   refine ⟨_, _, rfl, ?_, ?_⟩
   · decide
   · rfl
@@ -503,39 +540,130 @@ theorem C07_taint_persistent (root : Node) (w : World) (fuel : Nat) (rs : Bool) 
 example : WF ({} : EvSt) ∧ ∃ v st', evalNodeF c07ExTaintTree {} 9 false c07ExTaintTree [] {} = .ok (v, st') :=
   ⟨WF.init, _, _, rfl⟩
 
-/-! ### Finding: taint laundering through a non-strict reference
+/-! ### No laundering
 
-  `C07_taint_sound` records *visited* unsafe nodes. A reference followed in non-strict mode to an
-  already memoised tainted value (`ctxGetNode root false`) returns that value without visiting a
-  node, so the container around the reference is memoised untainted, and a later strict lookup of
-  the container succeeds. With
+  The counter `unsafeSeen` moves exactly when unsafe content is consumed: an unsafe node is visited
+  (`bump`) or a tainted memo entry is read (`C07_tainted_read_counts`). It never decreases
+  (`C07_counter_monotone`). The central fact is `C07_clean_is_strict`: a successful evaluation, in
+  any mode, across which the counter did not move *is* the evaluation under `require_all_safe` — the
+  strict run from the same state returns the same value and the same state. Strict mode refuses
+  every unsafe node and every tainted memo entry (`C07_args_only_safe`,
+  `C07_lookup_refuses_tainted`), so such an evaluation visited none and read none. -/
 
-      q: !unsafe 7
-      p: {x: !xref q}
-      c: !call f {a: !xref p}
+theorem C07_counter_monotone (root : Node) (w : World) (fuel : Nat) (rs : Bool) (n : Node) (path : Path)
+    (st st' : EvSt) (v : Val) (h : evalNodeF root w fuel rs n path st = .ok (v, st')) :
+    st.unsafeSeen ≤ st'.unsafeSeen :=
+  evalNodeF_seen_mono root w fuel rs n path st v st' h
 
-  the call runs with `{x: 7}`, a value originating from the !unsafe node (the library behaves the
-  same: `Config.build` of this document calls `f({'x': 7})`, whereas `c: !call f {a: !xref q}`
-  raises UnsafeError). Hence the clause "no value originating from unsafe content is ever passed to
-  a call" does not hold; the theorems above state what does. -/
+theorem C07_clean_is_strict (root : Node) (w : World) (fuel : Nat) (rs : Bool) (n : Node) (path : Path)
+    (st st' : EvSt) (v : Val) (h : evalNodeF root w fuel rs n path st = .ok (v, st'))
+    (hs : st'.unsafeSeen = st.unsafeSeen) : evalNodeF root w fuel true n path st = .ok (v, st') :=
+  evalNodeF_clean_strict root w fuel rs n path st v st' h hs
 
-def c07ExLaundering : Node :=
+example : ∃ v st', evalNodeF c07ExSafeTree c07ExWorld 9 false c07ExSafeTree [] {} = .ok (v, st') ∧
+    st'.unsafeSeen = ({} : EvSt).unsafeSeen ∧
+    evalNodeF c07ExSafeTree c07ExWorld 9 true c07ExSafeTree [] {} = .ok (v, st') := by
+  refine ⟨_, _, rfl, ?_, ?_⟩ <;> rfl
+
+/- a freshly memoised value is untainted exactly when its node is safe and the counter did not move
+   while it was computed -/
+theorem C07_untainted_iff_clean (root : Node) (w : World) (fuel : Nat) (rs : Bool) (n : Node) (path : Path)
+    (st st' : EvSt) (v : Val) (hwf : WF st) (hfresh : plookup path st.cache = none)
+    (h : evalNodeF root w fuel rs n path st = .ok (v, st')) :
+    path ∉ st'.tainted ↔ (st'.unsafeSeen = st.unsafeSeen ∧ eSafe n.flags = true) := by
+  constructor
+  · intro hnt
+    refine ⟨?_, ?_⟩
+    · cases hd : decide (st'.unsafeSeen = st.unsafeSeen) with
+      | true => exact of_decide_eq_true hd
+      | false =>
+        exact absurd (C07_taint_sound root w fuel rs n path st st' v (.inl hfresh) h
+          (.inl (of_decide_eq_false hd))) hnt
+    · cases hs : eSafe n.flags with
+      | true => rfl
+      | false => exact absurd (C07_taint_sound root w fuel rs n path st st' v (.inl hfresh) h (.inr hs)) hnt
+  · intro ⟨hs, _⟩
+    exact (evalNodeF_clean_untainted hwf h hs).2
+
+/- "no value originating from unsafe content is ever passed to a call or resolved as a name": every
+   memo entry is created by a fresh successful `evalNodeF`; if the entry is left untainted, that
+   evaluation — in whatever mode it ran — was the strict evaluation: it visited no unsafe node and
+   read no tainted memo entry, and so (inductively, by the same theorem) did the evaluations that
+   created the entries it read. Arguments and names only ever receive untainted entries
+   (`C07_call_args_untainted`, `C07_eval_names_untainted`, `C07_strict_eval_clean`). -/
+theorem C07_no_laundering (root : Node) (w : World) (fuel : Nat) (rs : Bool) (n : Node) (path : Path)
+    (st st' : EvSt) (v : Val) (hwf : WF st) (hfresh : plookup path st.cache = none)
+    (h : evalNodeF root w fuel rs n path st = .ok (v, st')) (hnt : path ∉ st'.tainted) :
+    eSafe n.flags = true ∧ st'.unsafeSeen = st.unsafeSeen ∧
+    evalNodeF root w fuel true n path st = .ok (v, st') := by
+  have hc := (C07_untainted_iff_clean root w fuel rs n path st st' v hwf hfresh h).1 hnt
+  exact ⟨hc.2, hc.1, C07_clean_is_strict root w fuel rs n path st st' v h hc.1⟩
+
+/-- the former counterexample and its safe variant -/
+def c07ExLaundering (q : Flags) : Node :=
   .comp {} .dict [
-    (.str "q", .leaf { safe := some false } (.scalar (.int 7))),
+    (.str "q", .leaf q (.scalar (.int 7))),
     (.str "p", .comp {} .dict [(.str "x", .leaf {} (.xref "q"))]),
     (.str "c", .comp {} (.call "f") [(.str "a", .leaf {} (.xref "p"))])]
 
-theorem C07_taint_laundering :
-    ∃ v st, evaluate c07ExWorld c07ExLaundering = .ok (v, st) ∧
-      st.log.map (·.what) = ["call:f"] ∧
-      plookup [.str "c"] st.cache =
-        some (.app [.str "c"] "f" [("a", .dict [.str "p"] [(.str "x", .scalar (.int 7))])] [] []) ∧
-      st.tainted = [[], [.str "q"]] := by
-  refine ⟨_, _, rfl, ?_, ?_, ?_⟩ <;> rfl
-
-/- the direct reference is refused -/
+/- (c) the former counterexample is refused now; the direct reference was always refused; with a safe
+   `q` the same tree builds and the call runs -/
+example : evaluate c07ExWorld (c07ExLaundering { safe := some false }) = .error .unsafeE := rfl
 example : evaluate c07ExWorld (.comp {} .dict [
     (.str "q", .leaf { safe := some false } (.scalar (.int 7))),
     (.str "c", .comp {} (.call "f") [(.str "a", .leaf {} (.xref "q"))])]) = .error .unsafeE := rfl
+example : ∃ v st, evaluate c07ExWorld (c07ExLaundering {}) = .ok (v, st) ∧
+    st.log.map (·.what) = ["call:f"] ∧ st.tainted = [] ∧
+    plookup [.str "c"] st.cache =
+      some (.app [.str "c"] "f" [("a", .dict [.str "p"] [(.str "x", .scalar (.int 7))])] [] []) := by
+  refine ⟨_, _, rfl, ?_, ?_, ?_⟩ <;> rfl
+/- without the call the unsafe tree builds, and everything computed from `q` is tainted -/
+example : ∃ v st, evaluate c07ExWorld (.comp {} .dict [
+    (.str "q", .leaf { safe := some false } (.scalar (.int 7))),
+    (.str "p", .comp {} .dict [(.str "x", .leaf {} (.xref "q"))])]) = .ok (v, st) ∧
+    st.tainted = [[], [.str "p"], [.str "p", .str "x"], [.str "q"]] := by
+  refine ⟨_, _, rfl, ?_⟩; rfl
+
+/- (d) "tainted is closed", for a whole build of a tree with pairwise distinct keys: if the value
+   memoised for a node `m` of the tree (at any path `p`) is untainted in the final state, then `m` is
+   safe, the values of all its children are untainted, and if `m` is a reference the node its chain
+   ends in is untainted (and holds the same value). (`Cov.closed`, `Cov.alias`, `Cov.utaint` of
+   AY.Lemmas.OnceLemmas are the state invariants behind it; names of `!eval` code are always
+   resolved strictly, `C07_eval_names_untainted`.) -/
+theorem C07_untainted_closed (w : World) (root : Node) (v : Val) (st : EvSt)
+    (huk : uniqueKeys root = true) (h : evaluate w root = .ok (v, st))
+    (p : Path) (m : Node) (hm : getNode root p = some m) (hnt : p ∉ st.tainted) :
+    eSafe m.flags = true ∧
+    (∀ key c, (key, c) ∈ m.children → p ++ [key] ∉ st.tainted) ∧
+    (∀ f t, m = .leaf f (.xref t) → ∃ a fuel tp, xrefResolve root fuel t = some tp ∧
+      plookup p st.cache = some a ∧ plookup tp st.cache = some a ∧ tp ∉ st.tainted) :=
+  evaluate_untainted_closed huk h hm hnt
+
+/- hence an untainted value has no unsafe node and no tainted value anywhere below it -/
+theorem C07_untainted_subtree (w : World) (root : Node) (v : Val) (st : EvSt)
+    (huk : uniqueKeys root = true) (h : evaluate w root = .ok (v, st)) :
+    ∀ (q p : Path) (m m' : Node), getNode root p = some m → p ∉ st.tainted → getNode m q = some m' →
+      p ++ q ∉ st.tainted ∧ eSafe m'.flags = true
+  | [], p, m, m', hm, hnt, hq => by
+    simp only [getNode, Option.some.injEq] at hq; subst hq
+    exact ⟨by simpa using hnt, (C07_untainted_closed w root v st huk h p m hm hnt).1⟩
+  | key :: q', p, m, m', hm, hnt, hq => by
+    cases m with
+    | leaf f lk => simp [getNode] at hq
+    | comp f k cs =>
+      unfold getNode at hq
+      split at hq
+      · cases hq
+      · rename_i c hc
+        have hch := (C07_untainted_closed w root v st huk h p _ hm hnt).2.1 key c
+          (by simpa [Node.children] using alookup_mem hc)
+        have hgc : getNode root (p ++ [key]) = some c := by
+          rw [getNode_append, hm]; simp [getNode, hc]
+        have := C07_untainted_subtree w root v st huk h q' (p ++ [key]) c m' hgc hch hq
+        simpa using this
+
+example : uniqueKeys (c07ExLaundering {}) = true ∧
+    getNode (c07ExLaundering {}) [.str "c"] = some (.comp {} (.call "f") [(.str "a", .leaf {} (.xref "p"))]) :=
+  ⟨rfl, rfl⟩
 
 end AY
